@@ -88,6 +88,7 @@ F_FALSY = "C17-falsy-subcommand-name"
 # reference no longer excuses those classes; a deviation of that kind is a VIOLATION unless another open class explains it
 F_MAPPING = "C17-parse-env-mapping-not-handed-on"
 F_REPARSE = "C17-dump-reparse-selects-other"
+F_INNER = "C17-env-named-inner-choice-order"
 
 OPT_NAMES = ["alpha", "beta", "gamma", "delta", "kappa", "omega"]
 # "items" and "update" are attribute names of Namespace: stored under the clash-marked name (C11), looked up by plain name
@@ -948,6 +949,30 @@ def reference(spec, inp):
                     explicit.append((krank, 0, len(base), secs[0]))
                 for n in secs:
                     settings.setdefault(n, set()).add(idx)
+            # open finding F_INNER (since repair F50): the parser at `path` (or an ancestor of it) was NAMED BY ITS ENVIRONMENT VARIABLE,
+            # no source names a subcommand at this level, and unnamed sections for DIFFERENT subcommands come from the config
+            # environment variable of that env-named parser and from a default config file: the environment-only layer of the
+            # env-named parser is handled on its own first and commits to the section of the config variable
+            if env_named_at and not any(tree_get(t, rel(b, path))[1] and isinstance(tree_get(t, rel(b, path))[0], dict)
+                                        and tree_get(t, rel(b, path))[0].get(sub["dest"]) is not None
+                                        for _, _, b, t in src if rel(b, path) is not None):
+                env_bases = {path[:k + 1] for k in env_named_at}
+
+                def first_sec(kinds, bases=None):
+                    out = set()
+                    for kind, rank, base, tree in src:
+                        if kind not in kinds or rel(base, path) is None or (bases is not None and base not in bases):
+                            continue
+                        sect, ok = tree_get(tree, rel(base, path))
+                        if ok and isinstance(sect, dict):
+                            secs = [n for n in names if isinstance(sect.get(n), dict) and has_leaf(sect[n])]
+                            if secs:
+                                out.add(secs[0])
+                    return out
+
+                es, ds = first_sec(("envcfg",), env_bases), first_sec(("dcf",))
+                if es and ds and es != ds:
+                    hints[("choice", path)] = F_INNER
             if explicit:
                 top = max(e[:2] for e in explicit)
                 if top[0] == 3:
